@@ -721,9 +721,53 @@ fn dev_tight(dev: f64) -> f64 {
     1e-9 * dev.abs() + 1e-12
 }
 
+/// Weighted fits: the statement does not say whether "the family's deviance at the fitted means" carries the
+/// prior weights, so either reading is accepted — Σ d(y_i, μ̂_i) or Σ w_i d(y_i, μ̂_i) — at the returned
+/// coefficients or (tolerated lag) at the library's previous iterate, within rounding. A value that is neither
+/// (for instance a formula that silently assumes Σ(y − μ̂) = 0, which only holds for unweighted maximum-likelihood
+/// fits with an intercept) is a violation. Undecidable cases (previous iterate not recoverable) are counted.
+fn check_deviance_weighted(ctx: &mut Ctx, c: &Case) -> R {
+    let sub = format!("deviance/{}", fam_name(c.fam));
+    let f = match prelude(ctx, &sub, "deviance", c)? {
+        Some(f) => f,
+        None => return Ok(()),
+    };
+    ctx.label(&sub, "weighted");
+    let sig = format!("C06/{}", sub);
+    let got = match f.glm.deviance() {
+        Ok(d) => d,
+        Err(e) => return fail(sig, format!("{}: deviance() is Err({}) after a successful fit", describe(c), e)),
+    };
+    let tight = |want: f64| 10.0 * dev_tight(want);
+    let near = |u: f64, w: f64| (got - u).abs() <= tight(u) || (got - w).abs() <= tight(w);
+    if near(f.at.dev_u, f.at.dev_w) {
+        ctx.label(&sub, "weighted:matches-at-returned-coefficients");
+        return Ok(());
+    }
+    let prev = match prev_iterate(c, &f.coef) {
+        Some(b) => b,
+        None => {
+            ctx.label(&sub, "weighted:undecided(previous iterate not recoverable)");
+            return Ok(());
+        }
+    };
+    let atp = problem(c).at(&prev);
+    if near(atp.dev_u, atp.dev_w) {
+        ctx.label(&sub, "weighted:accepted-one-step-behind");
+        return Ok(());
+    }
+    fail(
+        sig,
+        format!(
+            "{}: deviance() = {:e} is neither the unweighted ({:e}) nor the weighted ({:e}) {} deviance at the fitted means, nor either of them at the library's previous iterate ({:e}, {:e})",
+            describe(c), got, f.at.dev_u, f.at.dev_w, fam_name(c.fam), atp.dev_u, atp.dev_w
+        ),
+    )
+}
+
 pub fn check_deviance(ctx: &mut Ctx, c: &Case) -> R {
     if c.w.is_some() {
-        return Ok(());
+        return check_deviance_weighted(ctx, c);
     }
     let sub = format!("deviance/{}", fam_name(c.fam));
     let f = match prelude(ctx, &sub, "deviance", c)? {
@@ -1230,7 +1274,7 @@ alpha in {0,0.1,1,10}; tolerance log-uniform [1e-12,1e-9] (70%) or [1e-8,1e-5] (
         "x is row-major n x p with the intercept column supplied by the caller; weights multiply the log-likelihood terms".into(),
         "a case is inside the quantifier only if the harness's own damped Fisher scoring finds a finite (penalised) MLE with |b| <= 12 and a numerically full-rank information matrix; other cases are skipped and counted".into(),
         "the oracle is evaluated only when fit returns Ok; Err results are counted (fraction must stay below 20 %)".into(),
-        "deviance and dispersion are checked for unweighted fits only; covariance for alpha = 0 only (the statement defines neither a weighted dispersion estimate nor a penalised information)".into(),
+        "dispersion is checked for unweighted fits only; the deviance of a weighted fit may be the weighted or the unweighted sum of unit deviances (either reading accepted); covariance for alpha = 0 only (the statement defines neither a weighted dispersion estimate nor a penalised information)".into(),
         "tolerated: deviance / information evaluated one scoring step behind the returned coefficients (tolerances are functions of the convergence tolerance)".into(),
     ];
     if !gr::self_test() {
@@ -1263,6 +1307,9 @@ alpha in {0,0.1,1,10}; tolerance log-uniform [1e-12,1e-9] (70%) or [1e-8,1e-5] (
         s.weights = false;
         ctx.run_prop_par(&format!("deviance/{}", fam_name(fam)), n_dev, th, || strat(s), check_deviance);
         ctx.run_prop_par(&format!("dispersion/{}", fam_name(fam)), n_disp, th, || strat(s), check_dispersion);
+        // weighted fits (either reading of the deviance accepted); a third of these draw no weights
+        let sw = Spec::new(Some(fam), AlphaSet::Any);
+        ctx.run_prop_par(&format!("deviance/{}", fam_name(fam)), n_dev / 2, th, || strat(sw), check_deviance);
     }
     // (v): α = 0
     let n_se = ctx.scale(1500, 48000);
